@@ -66,7 +66,7 @@ prop(
 
 prop(
     "C09",
-    level_text="Theorems on the decoder model for every frame header, dictionary registry and buffer state: a frame naming an unregistered dictionary is refused with DictNotProvided before any block is decoded (missing_dict_error); with the dictionary registered reset seeds exactly entropy tables, repeat offsets and content (init_from_dict_state); a header without dictionary id starts from the empty state whatever is registered (no_dict_without_id; later frames: C07 reuse_eq_fresh); offsets beyond dictionary+output and dictionary reach-back after more than a window of output are rejected. The byte-level equality of reaching into the dictionary with the RFC copy (repeat_from_dict_eq_spec) is not yet proved: partial. Tie to the code: engine dict (reference trainer dictionaries, libzstd dictionary frames with/without id, several dictionaries, synthetic frames straddling the dictionary boundary at every alignment; model replays every operation), engine reuse (dictionary leaks).",
+    level_text="Theorems on the decoder model for every frame header, dictionary registry and buffer state: a frame naming an unregistered dictionary is refused with DictNotProvided before any block is decoded (missing_dict_error); with the dictionary registered reset seeds exactly entropy tables, repeat offsets and content (init_from_dict_state); a header without dictionary id starts from the empty state whatever is registered (no_dict_without_id; later frames: C07 reuse_eq_fresh); offsets beyond dictionary+output and dictionary reach-back after more than a window of output are rejected. Reaching into the dictionary is byte-for-byte the RFC copy from dict++output for every buffer state, offset >= 1 and match length — inside the output (overlapping included), inside the dictionary, straddling the boundary at every alignment (repeat_eq_matchCopy, repeat_ok_matchCopy, repeat_accepts_iff, repeat_shape); the slice/chunk statements of the Rust code (extend_from_within, repeat_in_chunks, the re-entry with offset = buffer length) compute the same (repeat_eq_rust_statements); total_output_counter never over-counts, so the window test never refuses a reach-back the RFC allows (repeat_totalOut_le, totalOut_le_produced, dict_copy_of_valid_frame); a whole block's sequence execution refines the RFC executor with dictionary, window tests and offset history, in every buffer state that keeps two invariants which reset, every block and every drain-to-window preserve (executeSequences_refines_dict, invariants_reset, decodeOneBlock_keeps_invariants, invariants_drain_to_window). Tie to the code: engine dict (reference trainer dictionaries, libzstd dictionary frames with/without id, several dictionaries, synthetic frames straddling the dictionary boundary at every alignment; model replays every operation), engine reuse (dictionary leaks).",
     engines=[{"name": "dict"}, {"name": "reuse"}],
     also_reports={"dict": ["C01", "C06", "C08", "C10"]},
     modelled="dictionary selection (resetCore/applyDictChoice/forceDict) and DecodeBuffer::repeat_from_dict on the abstract buffer mirror the Rust; the dictionary FILE parser in the executable model is the Spec parser (strict) — ruzstd's Dictionary::decode_dict is compared with it on every trained dictionary",
